@@ -109,6 +109,17 @@ def validate(recs, dump, nl_counts):
                     out.append(('C20 link refers to unknown item class %s' % cls, {'link': l})); break
                 if idx and (min(idx) < 0 or max(idx) >= size):
                     out.append(('C20 link index outside item class %s (size %d)' % (cls if cls in sizes else 'CON', size), {'link': l, 'class': cls})); break
+    # --- export completeness of the links: every NL constraint and objective starts at least one link (it is copied or
+    # converted into something); observed to hold for every model / configuration of the C19/C20 model set
+    if links:
+        linked = {'src_cons()': set(), 'src_objs()': set()}
+        for l in links:
+            for node in l.get('src_nodes', []):
+                if isinstance(node, dict) and len(node) == 1:
+                    (cls, ref), = node.items()
+                    if cls in linked: linked[cls].update(_idx_list(ref) or [])
+        miss = [i for i in range(nl_counts['algcons'] + nl_counts['logcons']) if i not in linked['src_cons()']]
+        if miss: out.append(('C20 NL constraint is the source of no link record', {'indexes': miss[:10], 'count': len(miss)}))
     # --- delivered == final
     if dump is not None:
         # variables and objectives of the delivered model appear
